@@ -70,6 +70,12 @@ def extra(data):
 
 
 KINDS = ["pawn", "knight", "bishop", "rook", "queen", "king"]
+PLACEMENTS = [
+    "r3k2r/p1ppqpb1/bn2pnp1/3PN3/Pp2P3/2N2Q1p/1PPBBPPP/R3K2R w KQkq a3 0 1",
+    "rnbqkbnr/ppp1p1pp/8/3pPp2/8/8/PPPP1PPP/RNBQKBNR w KQkq f6 0 3",
+    "8/2p5/3p4/KP5r/1R3pPk/8/4P3/8 b - g3 0 1",
+    "r3k2r/Pppp1ppp/1b3nbN/nP6/BBP1P3/q4N2/Pp1P2PP/R2Q1RK1 w kq - 0 1",
+]
 
 
 def case_inst(fn, kind, side, unwind=None):
@@ -100,9 +106,20 @@ def jobs(tier, seed):
             n, src = case_inst("oracle_delta", kind, side, unwind=66)
             js.append(Job(n, f"oracle lemma: XOR-sum(after) == XOR-sum(before) ^ delta for {'a null move' if kind == 7 else 'any ' + KINDS[kind] + ' move'}, any material",
                           gen=src, timeout=t, mem_gb=20, checks="functional", witness=False))
+    # quick complement: concrete placements (incl. all twelve piece kinds, home-square kings and rooks, pawns that just double-pushed), symbolic side/rights/ep
+    from props.c10 import bpos_literal
+    import re as _re
+    for i, fen in enumerate(PLACEMENTS):
+        lit = bpos_literal(fen)
+        pcs = _re.search(r"pcs: (\[\[.*?\]\])", lit).group(1)
+        name = f"c03_hash_on_placement_{i}"
+        src = f"#[kani::proof]\n#[kani::unwind(66)]\npub fn {name}() {{ c03::hash_on_placement({pcs}); }}\n"
+        js.append(Job(name, f"real hash() == XOR sum on the placement of '{fen.split()[0]}' with symbolic side, rights, en-passant target", gen=src, timeout=900, mem_gb=12,
+                      checks="functional", witness=False, params={"placement": fen.split()[0]}))
     n, src = inst("hash_is_xor_sum", k, pawns)
-    js.append(Job(n, f"real hash() == XOR sum of components, material <= {k} officers per kind and colour, <= {pawns} pawns", gen=src, timeout=t, mem_gb=24,
-                  checks="functional", witness=False, params={"per_kind": k, "pawns": pawns}, unwindset={"xor_sum.": 66}))
+    if tier == "thorough":  # > 15 min even at one officer per kind (symbolic-square look-ups into the 768-word table inside hash()'s loops)
+      js.append(Job(n, f"real hash() == XOR sum of components, material <= {k} officers per kind and colour, <= {pawns} pawns", gen=src, timeout=t, mem_gb=24,
+                    checks="functional", witness=False, params={"per_kind": k, "pawns": pawns}, unwindset={"xor_sum.": 66}))
     if tier == "thorough":
         for kind in ("make", "null"):
             n, src = inst(kind, 1, 2)
